@@ -243,14 +243,31 @@ CHECK_DEADLOCK TRUE
 """
 
 
-def run_machine(work, records, timeout=1200, cfg_text=MACHINE_CFG, module="Machine"):
-    """records: prog_record list. Returns (dict id -> results list, TLCResult)."""
-    text = "".join(json.dumps(r, separators=(",", ":")) + "\n" for r in records)
-    res = run_tlc(work, module, cfg_text, files={"progs.ndjson": text}, timeout=timeout)
-    out = {}
-    for rec in res.lines:
-        out[rec["id"]] = rec["results"]
-    return out, res
+def run_machine(work, records, timeout=1200, cfg_text=MACHINE_CFG, module="Machine", chunk=2500):
+    """records: prog_record list. Returns (dict id -> results list, TLCResult).
+    Every program is one initial state carrying its whole text, so TLC is given at most `chunk` programs per run
+    (11,000 at once exhausted its heap); the counters of the runs are added up."""
+    out, total = {}, None
+    for k in range(0, max(len(records), 1), chunk):
+        part = records[k:k + chunk]
+        text = "".join(json.dumps(r, separators=(",", ":")) + "\n" for r in part)
+        res = run_tlc(work, module, cfg_text, files={"progs.ndjson": text}, timeout=timeout)
+        for rec in res.lines:
+            out[rec["id"]] = rec["results"]
+        if total is None:
+            total = res
+        else:
+            total.distinct += res.distinct
+            total.generated += res.generated
+            total.depth = max(total.depth, res.depth)
+            total.wall += res.wall
+            total.raw += res.raw[-4000:]
+            total.violated = list(total.violated) + [v for v in res.violated if v not in total.violated]
+            total.error = total.error or res.error
+            total.lines = []
+        if res.violated or res.error:
+            break
+    return out, total
 
 
 def compare_eval(me, re_, check_steps=True, check_frames=True):
